@@ -83,9 +83,9 @@ def run_native(prop, tier, seed, results=None):
                 if k is not None:
                     keys.add(k)
                 if bad is not None:
-                    if len(fails) < 5:
+                    if len(fails) < 12:
                         fails.append(dict(check=c.name, input=inp, **bad))
-                    if len(fails) >= 5:
+                    if len(fails) >= 12:
                         break
                 elif len(out['samples']) < 12 and n % 97 == 1:
                     out['samples'].append(dict(check=c.name, input=inp))
